@@ -152,6 +152,17 @@ def run_case(i, rng, tier):
             failures.append(C.fail(None, "result depends on fill order: %s" % C.fmt_diff(dd), perm=C.stream_json(perm), **wit))
             break
 
+    # the same numbers arriving as other numeric types (elements of integer columns, numpy booleans, float32 NaN)
+    typed = [(S.retype_record(rng, r), w) for r, w in stream]
+    try:
+        h3 = C.fill_all(S.build(sp), typed)
+        dd = O.diff(obs, O.observe(h3), scale)
+        counters["typed_streams_compared"] = 1
+        if dd:
+            failures.append(C.fail(None, "result depends on the numeric type of the quantity values: %s" % C.fmt_diff(dd), typed=[[{f: type(v).__name__ for f, v in r.items()}, S.jsonable(w)] for r, w in typed][:8], **wit))
+    except Exception as e:  # noqa: BLE001
+        failures.append(C.fail(None, "fill of the same numbers as other numeric types raised %s: %s" % (type(e).__name__, str(e)[:200]), typed=[[{f: type(v).__name__ for f, v in r.items()}, S.jsonable(w)] for r, w in typed][:8], **wit))
+
     nt = C.nontrivial(sp, stream) and not inc
     return {
         "digest": C.digest(sp, stream),
